@@ -51,6 +51,23 @@ def literal_deficit(data):
         pos = nl + 1 + n
 
 
+def still_awaited(data):
+    """does the command in `data` still lack input — an unfinished literal, or the rest of the line after a literal?"""
+    import re
+    pos = 0
+    while True:
+        nl = data.find(b'\n', pos)
+        if nl < 0:
+            return True
+        m = re.search(rb'\{(\d+)\+\}\r?\n$', data[pos:nl + 1])
+        if not m:
+            return False
+        n = int(m.group(1))
+        if len(data) - (nl + 1) < n:
+            return True
+        pos = nl + 1 + n
+
+
 def _alarm(signum, frame):
     raise Hang()
 
@@ -450,7 +467,10 @@ async def sieve_lines(part, r, n):
                     part.stat('huge-literal-not-completed')
                     await c.finish()
                     continue
-                raw = await c.send(b'x' * max(0, deficit) + b'\r\n')          # an unfinished literal or quoted string swallowed the line end
+                if not still_awaited(line):
+                    # every announced literal was delivered in full and the line is complete: nothing can still be awaited
+                    part.violation('monitor', f'ManageSieve gives no answer to the complete command {line[:200]!r} (no literal is outstanding)', case, signature='sieve-no-answer')
+                raw = await c.send(b'x' * max(0, deficit) + b'\r\n')          # an unfinished literal swallowed the line end
                 if not c.task.done() and raw == b'':
                     raw = await c.send(b'\r\n')
         except Hang:
